@@ -91,7 +91,7 @@ var values = []string{"GET", "POST", "/", "/index.html", "200", "404", "gzip, de
 	"session=0123456789abcdef", "Mozilla/5.0 (X11; Linux x86_64)", "no-cache", "private"}
 
 func genValue(r *hv.Rng) []byte {
-	switch r.Intn(8) {
+	switch r.Intn(9) {
 	case 0, 1, 2:
 		return []byte(r.Pick(values))
 	case 3: // printable text: Huffman is shorter
@@ -121,6 +121,15 @@ func genValue(r *hv.Rng) []byte {
 			}
 		}
 		return b
+	case 7:
+		if r.Bool() { // raw form, length exactly around the one-byte length limit 127
+			b := r.Bytes(r.Range(125, 130))
+			for i := range b {
+				b[i] |= 0x80
+			}
+			return b
+		}
+		return r.Bytes(r.Range(0, 12))
 	default:
 		return r.Bytes(r.Range(0, 12))
 	}
@@ -155,15 +164,61 @@ func gen(r *hv.Rng, i int, tier string) (string, hv.Val) {
 		}
 		pool = append(pool, hv.L{hv.I(0), hv.B(nm), hv.B(genValue(r)), hv.Bool(r.Chance(1, 7))})
 	}
+	fsz := func(k int) int { return len(hv.AsBytes(pool[k][1])) + len(hv.AsBytes(pool[k][2])) + 32 }
+	// boundary streams: table limits equal to one entry size / the sum of two entry sizes, +-1
+	// (shouldIndex's <=, evict's >), and many small entries (dynamic indexes >= 127: two-byte 7-bit varints)
+	switch r.Intn(10) {
+	case 0:
+		L, class = fsz(0)+r.Range(-1, 1), "Lexact1"
+	case 1:
+		L, class = fsz(0)+fsz(1)+r.Range(-1, 1), "Lexact2"
+	case 2:
+		if r.Chance(1, 3) {
+			L, class = 65536, "many"
+			ops := hv.L{}
+			if r.Bool() {
+				ops = append(ops, hv.L{hv.I(1), hv.I(65536)})
+			}
+			n := r.Range(70, 140)
+			for k := 0; k < n; k++ {
+				ops = append(ops, hv.L{hv.I(0), hv.B([]byte{'k', byte('a' + k%26), byte('a' + k/26)}), hv.B([]byte{byte('0' + k%10)}), hv.Bool(false)})
+				if k%40 == 39 {
+					ops = append(ops, hv.L{hv.I(2)})
+				}
+			}
+			ops = append(ops, hv.L{hv.I(2)})
+			for k := r.Range(1, 6); k > 0; k-- { // refer back to old entries
+				j := r.Intn(n)
+				ops = append(ops, hv.L{hv.I(0), hv.B([]byte{'k', byte('a' + j%26), byte('a' + j/26)}), hv.B([]byte{byte('0' + j%10)}), hv.Bool(false)})
+				if r.Chance(1, 3) {
+					ops = append(ops, hv.L{hv.I(0), hv.B([]byte{'k', byte('a' + j%26), byte('a' + j/26)}), hv.B(genValue(r)), hv.Bool(r.Chance(1, 4))})
+				}
+			}
+			ops = append(ops, hv.L{hv.I(2)})
+			return class, hv.L{hv.I(L), ops}
+		}
+	}
+	if L < 0 {
+		L = 0
+	}
+	gm := func() int {
+		switch r.Intn(5) {
+		case 0:
+			return fsz(0) + r.Range(-1, 1)
+		case 1:
+			return fsz(0) + fsz(1) + r.Range(-1, 1)
+		}
+		return genMax(r, L)
+	}
 	ops := hv.L{}
 	nb := r.Range(1, 5)
 	setmax := false
 	for b := 0; b < nb; b++ {
 		if r.Chance(1, 3) { // size change announced between blocks
-			ops = append(ops, hv.L{hv.I(1), hv.I(genMax(r, L))})
+			ops = append(ops, hv.L{hv.I(1), hv.I(gm())})
 			setmax = true
-			if r.Chance(1, 4) {
-				ops = append(ops, hv.L{hv.I(1), hv.I(genMax(r, L))})
+			if r.Chance(1, 3) {
+				ops = append(ops, hv.L{hv.I(1), hv.I(gm())})
 			}
 		}
 		nf := r.Range(0, 12)
@@ -198,5 +253,5 @@ func genMax(r *hv.Rng, L int) int {
 }
 
 func main() {
-	hv.Main(&hv.Spec{Prop: "C30", Gen: gen, Impl: impl, NQuick: 2500, NThorough: 120000})
+	hv.Main(&hv.Spec{Prop: "C30", Gen: gen, Impl: impl, NQuick: 2000, NThorough: 120000})
 }
